@@ -784,5 +784,72 @@ func run(in []byte) (*reg.Result, error) {
 		return nil, err
 	}
 	res.Distinct = len(inp.Cases)
+	if !inp.Corrupt {
+		if err := checkDeleteLastObject(ctx, work, res); err != nil {
+			return nil, err
+		}
+	}
 	return res, nil
+}
+
+// checkDeleteLastObject: the frame property for directories. A disk bucket whose root is given as a relative or as
+// an absolute path, directly or through a mapped view, holds a single object in otherwise empty directories;
+// deleting it (Delete / DeleteAll) must leave every directory outside the root as it was - whatever a bucket does
+// about directories that became empty, it does it inside its root.
+func checkDeleteLastObject(ctx context.Context, work string, res *reg.Result) error {
+	base := filepath.Join(work, "prune")
+	cwd, err := os.Getwd()
+	if err != nil {
+		return err
+	}
+	defer func() { _ = os.Chdir(cwd) }()
+	for _, rootForm := range []string{"relative", "absolute"} {
+		for _, via := range []string{"direct", "map"} {
+			for _, op := range []string{"delete", "deleteall"} {
+				_ = os.RemoveAll(base)
+				rootDir := filepath.Join(base, "p1", "p2", "root")
+				objDir := rootDir
+				if via == "map" {
+					objDir = filepath.Join(rootDir, "m")
+				}
+				if err := os.MkdirAll(filepath.Join(objDir, "d"), 0o755); err != nil {
+					return err
+				}
+				if err := os.WriteFile(filepath.Join(objDir, "d", "only.txt"), []byte("x"), 0o644); err != nil {
+					return err
+				}
+				if err := os.Chdir(work); err != nil {
+					return err
+				}
+				rootArg := rootDir
+				if rootForm == "relative" {
+					rootArg = filepath.Join("prune", "p1", "p2", "root")
+				}
+				b, err := storageos.NewProvider().NewReadWriteBucket(rootArg)
+				if err != nil {
+					return err
+				}
+				var wb storage.WriteBucket = b
+				if via == "map" {
+					wb = storage.MapWriteBucket(b, storage.MapOnPrefix("m"))
+				}
+				res.Count(1, 0)
+				if op == "delete" {
+					err = wb.Delete(ctx, "d/only.txt")
+				} else {
+					err = wb.DeleteAll(ctx, "d")
+				}
+				info := map[string]any{"root": rootArg, "via": via, "op": op, "err": fmt.Sprint(err)}
+				for _, outside := range []string{filepath.Join(base, "p1", "p2"), filepath.Join(base, "p1"), base} {
+					if st, serr := os.Stat(outside); serr != nil || !st.IsDir() {
+						res.Violate(fmt.Sprintf("escaped/directory-removed/%s-root/%s/%s", rootForm, via, op), info,
+							"%s of the last object of a bucket rooted at %s removed the directory %s, which lies outside the root", op, rootArg, outside)
+						break
+					}
+				}
+			}
+		}
+	}
+	_ = os.RemoveAll(base)
+	return nil
 }
